@@ -59,6 +59,16 @@ def mk_spec(r):
         D[r.randrange(n), :] = 0
     if r.random() < .3 and m > 1:
         D[:, r.randrange(m)] = 0
+    if vc == 'neg' and r.random() < .5:
+        # a vector that is not empty although it sums to zero
+        if m > 1 and r.random() < .5:
+            i = r.randrange(n)
+            D[i, :] = 0
+            D[i, 0], D[i, 1] = 1.5, -1.5
+        elif n > 1:
+            j = r.randrange(m)
+            D[:, j] = 0
+            D[0, j], D[1, j] = -2.0, 2.0
     idc = r.choice(['ascii', 'natsort', 'numeric', 'latin1', 'punct', 'one'])
     obs = gen.gen_ids(r, n, idc, 'O')
     samp = gen.gen_ids(r, m, idc, 'S')
